@@ -53,6 +53,10 @@ structure ECfg where
   nsIface : Bool := true
   /-- identity key has a separator between name and index chain (post-fix) -/
   keySep : Bool := true
+  /-- diagnostic switch (never the model of the code): node-set *values* are put into document
+  order and de-duplicated before a function or conversion consumes them.  The check uses it to
+  recognise the known finding "node-set values are sequences in iteration order" (KNOWN_FINDINGS). -/
+  setSemantics : Bool := false
 
 /-! ## Node test (`axisPredicate`) -/
 
@@ -175,11 +179,15 @@ def sibIndex (d : Doc) (r : Ref) : Nat := (prevSibsM d r).length + 1
 def indexChain (d : Doc) (r : Ref) : String :=
   (r :: ancestorsM d r).foldl (fun s x => s ++ "-" ++ toString (sibIndex d x)) ""
 
+/-- `writeKeyPart`: the string preceded by its byte length -/
+def keyPart (s : String) : String := toString s.utf8ByteSize ++ ":" ++ s
+
 def identityKey (d : Doc) (cfg : ECfg) (r : Ref) : String :=
+  let _ := cfg
   match nodeType d r with
   | .attr | .text | .comment =>
-    localName d r ++ "=" ++ stringValue d r ++ (if cfg.keySep then "\x00" else "") ++ indexChain d r
-  | .elem => prefixOf d r ++ (if cfg.keySep then "\x00" else "") ++ localName d r ++ (if cfg.keySep then "\x00" else "") ++ indexChain d r
+    keyPart (prefixOf d r) ++ keyPart (localName d r) ++ keyPart (stringValue d r) ++ indexChain d r
+  | .elem => keyPart (prefixOf d r) ++ keyPart (localName d r) ++ indexChain d r
   | _ => ""
 
 /-- FNV-64a -/
@@ -371,6 +379,13 @@ def callFn (name : String) (fi : Plan) (c : Ref) (args : List (Except EErr (MVal
     | .nodes [] => .ok none
     | .nodes (r :: _) => .ok (some (stringValue d r))
     | _ => other
+  let secondArg (m : String) : Except EErr (MVal F) := do
+    match ← arg 1 with
+    | .str n =>
+      if name == "starts-with" then .ok (.bool (Spec.fnStartsWith m n))
+      else if name == "ends-with" then .ok (.bool (Spec.fnEndsWith m n))
+      else .ok (.bool (Spec.fnContains m n))
+    | _ => .error (.raised name)
   match name with
   | "true" => .ok (.bool true)
   | "false" => .ok (.bool false)
@@ -421,14 +436,8 @@ def callFn (name : String) (fi : Plan) (c : Ref) (args : List (Except EErr (MVal
   | "starts-with" | "ends-with" | "contains" => do
     let v1 ← arg 0
     match ← strOrFirst v1 (.error (.raised name)) with
-    | none => .ok (.bool false)
-    | some m => do
-      match ← arg 1 with
-      | .str n =>
-        if name == "starts-with" then .ok (.bool (Spec.fnStartsWith m n))
-        else if name == "ends-with" then .ok (.bool (Spec.fnEndsWith m n))
-        else .ok (.bool (Spec.fnContains m n))
-      | _ => .error (.raised name)
+    | none => secondArg ""
+    | some m => secondArg m
   | "matches" | "replace" => .error (.unmodelled name)
   | "normalize-space" => do
     let v ← arg 0
@@ -454,11 +463,9 @@ def callFn (name : String) (fi : Plan) (c : Ref) (args : List (Except EErr (MVal
     | none => .ok (.str "")
     | some s => do
       let w ← arg 1
-      match ← strOrFirst w (.ok (some "")) with
-      | none => .ok (.str "")
-      | some word =>
-        if name == "substring-after" then .ok (.str (Spec.fnSubstringAfter s word))
-        else .ok (.str (Spec.fnSubstringBefore s word))
+      let word := (← strOrFirst w (.ok (some ""))).getD ""
+      if name == "substring-after" then .ok (.str (Spec.fnSubstringAfter s word))
+      else .ok (.str (Spec.fnSubstringBefore s word))
   | "string-length" => do
     let v ← arg 0
     match ← strOrFirst v (.ok (some "")) with
@@ -641,7 +648,7 @@ def evalP : Plan → Ref → Except EErr (MVal F)
   | .pcons _ _, _ => .ok .nilv
   | p, c => do
     let s ← sel p c
-    .ok (.nodes (s.map (·.r)))
+    .ok (.nodes (if cfg.setSemantics then Spec.docOrder d (s.map (·.r)) else s.map (·.r)))
 
 /-- the values of an argument list, each with its own outcome (functions decide which to force) -/
 def argVals : Plan → Ref → Except EErr (List (Except EErr (MVal F)))
